@@ -8,7 +8,7 @@ META = {
     "explanation": "Guard normal form of the launch condition (EX11), queue routing agreement (EX12), single writer of the "
                    "parallel-mode flag (EX13), slot acquire/release typestate (EX14), pool initialisation (EX15), COND_SLOT "
                    "agreement on a per-task fresh environment dict (RT8) and the --jobs validation (J1). The flag a generated task carries is the one its ExperimentInstance declares (GRP1–GRP6).",
-    "rules": ["EX11", "EX12", "EX13", "EX14", "EX15", "RT8", "J1", "GRP1", "GRP2", "GRP3", "GRP4", "GRP5", "GRP6"],
+    "rules": ["EX11", "EX12", "EX13", "EX14", "EX15", "RT8", "J1", "GRP1", "GRP2", "GRP3", "GRP4", "GRP5", "GRP6", "SGc", "SG7"],
     "assumptions": ["the invariant 'in-flight ops are all parallelizable or there is exactly one' is argued by hand from the guard shape (DESIGN §4.C04)"],
     "trusted": ["ast parser", "own call resolver"],
 }
@@ -52,6 +52,9 @@ def run(A, rep, tier):
     E.rule_ex15(A, rep, X)
     rule_rt8(A, rep)
     E.rule_j1(A, rep)
+    # in-flight and slot accounting assume that a reported completion is an exit: status decoding and the reap loop
+    R.rule_sgc(A, rep)
+    R.rule_sg7(A, rep)
     # "tasks not marked parallelizable run alone": the flag a generated task carries is the one its instance declares
     from . import group as GRPM
     GRPM.rule_grp(A, rep)
